@@ -1,3 +1,95 @@
 (* C04 — PDF417: every accepted text decodes back to exactly that text.
-   Property theorems only; proofs live in proofs/Pdf417P*.v. (under construction) *)
-From Verif Require Import Prelude Barcode Pdf417M Pdf417Spec.
+   Property theorems only; proofs live in proofs/Pdf417P*.v and Pdf417Props.v.
+
+   Model: model/Pdf417M.v (highlevel.go, errorcorrection.go, dimensions.go,
+   encoder.go, pdfcode.go; tables from gen/TabPdf417.v).  Specification:
+   spec/Pdf417Spec.v (ISO/IEC 15438 reference reader, written independently).
+   The column count chosen by calcDimensions (float aspect-ratio heuristic) is an
+   oracle: the theorems hold for EVERY column count. *)
+From Verif Require Import Prelude Barcode TabPdf417 Pdf417M Pdf417Spec Pdf417PTab Pdf417PRow Pdf417PNum
+  Pdf417PText Pdf417PHL Pdf417Props.
+
+(* COMPOSITION.  For every byte string, every security level (a Go byte) and
+   every column count: if the encoder model returns a barcode then its pixel
+   matrix is a valid PDF417 symbol for the reference reader — every row has the
+   start and stop pattern, every cell is a pattern of the cluster of its row,
+   left and right indicators of all rows agree with (row number, rows, columns,
+   level) by the ISO formulas, the shape is inside the ISO maxima, the length
+   descriptor counts all but the 2^(level+1) check words, all Reed-Solomon
+   syndromes at 3^1..3^k vanish in GF(929) — and the reader decodes it, byte for
+   byte, to the input. *)
+Theorem C04_roundtrip : forall data level cols bc,
+  pdf_bytes data -> 0 <= level <= 255 ->
+  pdf_encode data level cols = Ok bc ->
+  pdf_valid (bc_rows bc) = true /\ pdf_decode (bc_rows bc) = Some data.
+Proof. exact pdf_c04_roundtrip. Qed.
+Print Assumptions C04_roundtrip.
+
+(* Layer 2, whole message: for ALL byte strings highlevelEncode returns codewords
+   (no error, panic or exhausted fuel) which the ISO decoder (text/byte/numeric
+   compaction, latches, shifts, sub-modes), followed by any padding, turns back
+   into the input. *)
+Theorem C04_highlevel_roundtrip : forall data, pdf_bytes data ->
+  exists cws, pdf_highlevel data = Ok cws /\ Forall cw_range cws /\
+    forall p, pdf_decode_hl (cws ++ repeat 900 p) = Some data.
+Proof. exact pdf_c04_highlevel. Qed.
+Print Assumptions C04_highlevel_roundtrip.
+
+(* Layer 2, the text invariant: the sub-mode encodeText hands to the next segment
+   is the reader's sub-mode after the emitted codewords (pad 29 included). *)
+Theorem C04_text_invariant : forall text sm, Forall is_textc text ->
+  exists sm2 cws, pdf_encode_text text sm = Ok (sm2, cws) /\ Forall cw900 cws /\
+    pdfs_text_run (sub_of sm) cws = Some (text, sub_of sm2).
+Proof. exact pdf_c04_text_invariant. Qed.
+Print Assumptions C04_text_invariant.
+
+(* Layer 2, Reed-Solomon: Compute returns 2^(level+1) check words such that the
+   transmitted sequence has zero syndromes at 3^1 .. 3^k, for data of any length. *)
+Theorem C04_reed_solomon : forall level data,
+  0 <= level <= 8 -> Forall (fun v => 0 <= v) data ->
+  exists ec, pdf_compute level data = Ok ec /\ zlength ec = 2 ^ (level + 1) /\
+             Forall (fun c => 0 <= c < 929) ec /\
+             pdfs_syndromes_zero (Z.to_nat (2 ^ (level + 1))) 3 (data ++ ec) = true.
+Proof. exact pdf_c04_reed_solomon. Qed.
+Print Assumptions C04_reed_solomon.
+
+(* Layer 3: getLeft/RightCodeWord are the ISO indicator formulas for every row of
+   every shape up to 90 x 30 and every level; the row number, row count, column
+   count and level can be read back from them. *)
+Theorem C04_row_indicators : forall i r c l,
+  0 <= i < r -> r <= 90 -> 1 <= c <= 30 -> 0 <= l <= 8 ->
+  pdf_left_codeword i r c l = pdfs_left_indicator i r c l /\
+  pdf_right_codeword i r c l = pdfs_right_indicator i r c l /\
+  pdfs_left_indicator i r c l / 30 = i / 3 /\ pdfs_right_indicator i r c l / 30 = i / 3 /\
+  (r = 3 * (pdfs_left_indicator 0 r c l mod 30) + (pdfs_left_indicator 1 r c l mod 30) mod 3 + 1 /\
+   c = pdfs_right_indicator 0 r c l mod 30 + 1 /\ l = (pdfs_left_indicator 1 r c l mod 30) / 3).
+Proof. exact pdf_c04_indicators. Qed.
+Print Assumptions C04_row_indicators.
+
+(* Layer 1: the tables of the source (as generated now) — 3 x 929 patterns equal
+   to the pinned reference copy, structurally well-formed for their cluster and
+   pairwise distinct; start/stop words; correctionFactors = coefficients of
+   prod (x - 3^j) computed in the kernel; mixed/punctuation maps = ISO tables;
+   every text character has a sub-mode. *)
+Theorem C04_tables :
+  pdf_codewords = pdfs_patterns /\
+  (forall t p, 0 <= t < 3 -> In p (pdfs_cluster t) -> pdfs_pattern_ok (3 * t) p = true) /\
+  (forall t, 0 <= t < 3 -> NoDup (pdfs_cluster t) /\ length (pdfs_cluster t) = 929%nat) /\
+  pdf_start_word = 0x1fea8 /\ pdf_stop_word = 0x3fa29 /\
+  forallb pdf_level_gen_b pdf_levels = true /\
+  (forall ch v, pdf_assoc pdf_mixed_map ch = Some v <-> (0 <= v <= 29 /\ pdfs_text_action TMixed v = AChar ch)) /\
+  (forall ch v, pdf_assoc pdf_punct_map ch = Some v <-> (0 <= v <= 29 /\ pdfs_text_action TPunct v = AChar ch)) /\
+  (forall ch, pdf_is_text ch = true ->
+     pdf_is_alpha_upper ch || pdf_is_alpha_lower ch || pdf_is_mixed ch || pdf_is_punct ch = true).
+Proof. exact pdf_c04_tables. Qed.
+Print Assumptions C04_tables.
+
+(* the premise of C04_roundtrip is satisfiable: two concrete messages are encoded,
+   valid and decoded back (evaluated in the kernel) *)
+Example C04_nonvacuous_padpunct : pdf_ex_ok pdf_ex_padpunct 2 3 = true.
+Proof. exact pdf_c04_example_padpunct. Qed.
+Print Assumptions C04_nonvacuous_padpunct.
+
+Example C04_nonvacuous_mixed : pdf_ex_ok pdf_ex_mixed 4 5 = true.
+Proof. exact pdf_c04_example_mixed. Qed.
+Print Assumptions C04_nonvacuous_mixed.
